@@ -33,6 +33,10 @@ func newManyToManyMatchError(sampleID, duplicateSampleID uint64, side binOpSide)
 	}
 }
 
+// noTimestamp tags an output slot that no step has written yet. It must not be
+// a timestamp a step can have: -1 is the valid evaluation time 1ms before the epoch.
+const noTimestamp = math.MinInt64
+
 type outputSample struct {
 	lhT        int64
 	rhT        int64
@@ -69,8 +73,8 @@ func newTable(
 	lowCardOutputCache outputIndex,
 ) *table {
 	for i := range outputValues {
-		outputValues[i].lhT = -1
-		outputValues[i].rhT = -1
+		outputValues[i].lhT = noTimestamp
+		outputValues[i].rhT = noTimestamp
 	}
 	return &table{
 		pool: pool,
